@@ -3,6 +3,8 @@
 import json, os, subprocess
 CLAIMED = {
  # id: (level text, level_note, design_ref)
+ "C15": ("Proof (WP over go/ssa + SMT) of structural completeness (class D `carries`) of the catalogue snapshot path: for every field of every struct (enumerated from go/types, so later additions are covered) the clone holds an equal value (scalars, strings, struct values) or a non-aliased copy with equal length/nil-ness (slices, maps, pointers), for Data.Clone and the clone functions of DatabaseInfo, RetentionPolicyInfo, MeasurementInfo, ShardGroupInfo, ShardInfo, IndexGroupInfo, IndexInfo, UserInfo, ShardKeyInfo, MeasurementVer, ContinuousQueryInfo, NodeInfo.",
+         "Frames of the clone helpers are trusted (they only write fresh objects); element-wise equality inside cloned collections, Marshal/Unmarshal round trip and determinism of the ~70 apply handlers are not decided; fields explicitly listed `shared`/`except` in the contract file are reported in the evidence.", "DESIGN.md §5 C15"),
  "C07": ("Proof (WP over go/ssa + SMT, bit-vector mode: Go's wraparound, shifts and byte truncation are exact) for all inputs of the leaf codecs in lib/numberenc (uint16/32/64, zig-zag int64, float64 bit pattern, bool: length, prefix preservation, big-endian value equation, decoder = inverse equation, zig-zag round-trip lemmas), and of the float column encoder's scheme selection in lib/compress (NaN/Inf anywhere forces the NaN-safe scheme, 'all same' means bit-identical, the same-value block elides only the all-zero bit pattern, the output is never touched after a Gorilla error).",
          "Trusted: unsafe byte<->float64 slice re-views (lengths only), snappy/zstd/simple8b/gorilla/MLF internals, sync.Pool. Not decided yet: integer/timestamp/string/bool column encoders, record and file codecs, WAL row codec.", "DESIGN.md §5 C07"),
  "C16": ("Proof (WP over go/ssa + SMT), for all catalogue states, of the listed contracts in meta: a new shard group is aligned to the policy's group duration, contains the timestamp, is clamped to MaxNanoTime+1 and gets a fresh id (counter +1); CreateShardGroup validates before it allocates and leaves every id counter unchanged on an error return; the database default policy exists after SetDefaultRetentionPolicy / DropRetentionPolicy; catalogue lookups (GetDatabase/RetentionPolicy) return live objects only; the shard-group sort order is the (effective end, start) strict order.",
